@@ -23,7 +23,7 @@ func init() {
 		Doc: "help scan: index of the first -h/--help, -1 at the first `--` (unconditionally, inside the loop) or at the end", Run: cmd4})
 	register(&Rule{ID: "CMD-5", Props: []string{"C14", "C04"}, Floor: 4,
 		Doc: "version: tested before anything else, only on args[0] under a length guard against the declared version option's names; prints, signals the sentinel, returns nil", Run: cmd5})
-	register(&Rule{ID: "CMD-6", Props: []string{"C04", "C14"}, Floor: 4,
+	register(&Rule{ID: "CMD-6", Props: []string{"C04", "C14", "C07"}, Floor: 4,
 		Doc: "routing: a child is entered only after doInit (error: panic) and isAlias(token) on that child, with exactly the tokens after the alias; the level's own tokens args[:n] are validated first (except on the help descent); fsm is assigned only in doInit", Run: cmd6})
 	register(&Rule{ID: "CMD-7", Props: []string{"C04"}, Floor: 3,
 		Doc: "level split: number of tokens before the first alias of a direct sub-command; isAlias ranges over all aliases; aliases = strings.Fields(name)", Run: cmd7})
@@ -31,11 +31,11 @@ func init() {
 		Doc: "one start: a single Step.Run call, outside loops, on the entry step with nil, only when no token is left and an Action exists, followed by return nil", Run: cmd8})
 	register(&Rule{ID: "CMD-9", Props: []string{"C07", "C08"}, Floor: 4,
 		Doc: "spec errors are fatal: every doInit() result is compared with nil and panicked on the non-nil edge", Run: cmd9})
-	register(&Rule{ID: "CMD-10", Props: []string{"C04", "C16", "C08"}, Floor: 6,
+	register(&Rule{ID: "CMD-10", Props: []string{"C04", "C16", "C08", "C03"}, Floor: 6,
 		Doc: "implicit spec: Spec is written only in doInit, only when empty: \"[OPTIONS] \" iff an option exists, then each argument name + blank in list order; the scanner and the parser get that Spec and the command's own declarations; the result is stored in fsm", Run: cmd10})
 	register(&Rule{ID: "CMD-11", Props: []string{"C07", "C14", "C17"}, Floor: 10,
 		Doc: "output discipline: every Fprint* of the root package goes to stdErr/stdOut or a writer built on them; no Print*, no os.Stdout/os.Stderr outside the initialisers", Run: cmd11})
-	register(&Rule{ID: "CMD-12", Props: []string{"C03", "C07"}, Floor: 2,
+	register(&Rule{ID: "CMD-12", Props: []string{"C03", "C07", "C14"}, Floor: 2,
 		Doc: "every Cmd literal initialises both index maps; Command copies the parent's ErrorHandling", Run: cmd12})
 }
 
@@ -943,6 +943,68 @@ func cmd4(c *Ctx) {
 		}
 	}
 	c.Check(okIdx && sawIdx, key+":index-of-help", fn.Pos(), "returns the position of the first token equal to -h or --help", why)
+	// (a') no token is passed over untested: the scan moves on to the next token only after the token was
+	// found different from -h and from --help
+	{
+		cutFor := map[string]map[ir.Edge]bool{"-h": {}, "--help": {}}
+		ir.Instrs(fn, func(in ssa.Instruction) {
+			bo, ok := in.(*ssa.BinOp)
+			if !ok || !(bo.Op == token.EQL || bo.Op == token.NEQ) {
+				return
+			}
+			var other ssa.Value
+			if bo.X == tok {
+				other = bo.Y
+			} else if bo.Y == tok {
+				other = bo.X
+			}
+			if other == nil {
+				return
+			}
+			if sp, isS := ir.ConstString(other); isS {
+				if m, known := cutFor[sp]; known {
+					for _, e := range ir.EdgesWhere(fn, bo, bo.Op == token.NEQ) {
+						m[ir.Edge{From: e.From, To: e.To}] = true
+					}
+				}
+				return
+			}
+			// compared with each element of a literal set: passing on means the inner loop was exhausted
+			if sl, h, isR := rangeElemHeader(other); isR {
+				_, _, exit := loopBody(h)
+				if exit == nil {
+					return
+				}
+				for _, sp := range sliceLitStrings(sl) {
+					if m, known := cutFor[sp]; known {
+						m[ir.Edge{From: h, To: exit}] = true
+					}
+				}
+			}
+		})
+		var missing []string
+		for _, sp := range []string{"-h", "--help"} {
+			if len(cutFor[sp]) == 0 {
+				missing = append(missing, sp+" is never compared")
+				continue
+			}
+			blocked := map[*ssa.BasicBlock]bool{}
+			r := ir.Reach(entry, blocked, cutFor[sp])
+			reachHdr := false
+			for b := range r {
+				for _, sc := range b.Succs {
+					if sc == hdr && !cutFor[sp][ir.Edge{From: b, To: sc}] && b != hdr {
+						reachHdr = true
+					}
+				}
+			}
+			if reachHdr {
+				missing = append(missing, "the scan can move on to the next token without having compared this one with "+sp)
+			}
+		}
+		sort.Strings(missing)
+		reportP(c, key+":every-token-tested", fn.Pos(), missing, "a token is passed over only after it was found different from -h and --help")
+	}
 	// (c) -1 at the end
 	okEnd := false
 	_, _, exit := loopBody(hdr)
